@@ -59,7 +59,7 @@ class Ctx(object):
         it.loop_specs = self.registry.loops
         # add_status is always seen through its (C18-verified) range-update contract: keeps the
         # status dictionaries compact
-        it.mode.by_contract = set(by_contract) | {'statuses.add_status'}
+        it.mode.by_contract = set(by_contract)
         if hooks:
             it.hooks.update(hooks)
         it.types = TYPES
